@@ -211,10 +211,22 @@ class Ctx:
                     [sys.executable, str(VERIF / "translate" / "gen.py")], capture_output=True, text=True
                 )
                 if r.returncode != 0:
-                    ok = False
-                    msg = (r.stdout + r.stderr).strip().splitlines()[-1:] or ["translator failed"]
-                    self.broken.append(f"translator: {msg[0]}")
-                    self.log("translator failed:", (r.stdout + r.stderr)[-2000:])
+                    # a generator left the supported subset: that concerns this property only if its
+                    # property module (transitively) imports a Gen file owned by the failed generator
+                    out = (r.stdout + r.stderr)
+                    failed = {}
+                    try:
+                        failed = json.loads((LEAN / "GHEVerif" / "Gen" / ".failed.json").read_text())
+                    except Exception:  # noqa: BLE001
+                        failed = {"translator": {"error": out.strip().splitlines()[-1] if out.strip() else "translator failed", "files": None}}
+                    deps = self._import_closure(props_module)
+                    for name, info in failed.items():
+                        mods = None if info.get("files") is None else {"GHEVerif.Gen." + f[:-5] for f in info["files"]}
+                        if mods is None or (mods & deps):
+                            ok = False
+                            self.broken.append(f"translator ({name}): {info['error']}")
+                        else:
+                            self.log(f"translator: generator {name} failed ({info['error']}) but {props_module} does not depend on it")
             thms = self._theorems(props_file)
             self.obligations = thms
             targets = [props_module] + (["driver"] if need_driver else [])
@@ -241,6 +253,22 @@ class Ctx:
             lock.close()
         self.extra["obligation_names"] = self.obligations
         return ok
+
+    def _import_closure(self, module: str):
+        """Transitive `import GHEVerif.…` closure of a module of the project."""
+        seen, todo = set(), [module]
+        while todo:
+            m = todo.pop()
+            if m in seen or not m.startswith("GHEVerif"):
+                continue
+            seen.add(m)
+            f = LEAN / (m.replace(".", "/") + ".lean")
+            if f.exists():
+                for line in f.read_text().splitlines():
+                    mm = re.match(r"\s*import\s+(GHEVerif\S*)", line)
+                    if mm:
+                        todo.append(mm.group(1))
+        return seen
 
     def _theorems(self, props_file: Path):
         if not props_file.exists():
